@@ -141,7 +141,7 @@ theorem flag_unique (f : Nat) : ∀ (D : List (Nat × Bool)), DescAbove f D →
     · simp only [Prod.mk.injEq] at h'; have := hle _ h; simp only at this; omega
     · exact flag_unique f D hd.2 t m m' h h'
 
-/-- the fixed walk's ranges = keys whose successor token is owned (in terms of the walk's own lists). -/
+/-- the walk's ranges = keys whose successor token is owned (in terms of the walk's own lists). -/
 theorem outF_owned (f : Nat) (fm : Bool) (D : List (Nat × Bool)) (hd : DescAbove f D)
     (hb : topOf f D ≤ maxU32) (k : Nat) (hk : k ≤ maxU32) :
     coversR (outF (f, fm) (if fm then some maxU32 else none) D) k ↔
@@ -182,42 +182,42 @@ def Safe : Option Nat → List (Nat × Bool) → Prop
   | none, (t, m) :: R => if m then pred32 t ≠ 0 ∧ Safe (some (pred32 t)) R else Safe none R
   | some re, (t, m) :: R => if m then Safe (some re) R else Safe none R
 
-theorem walkLoop_eq_F : ∀ (D : List (Nat × Bool)) (st : Option Nat), st ≠ some 0 → Safe st D →
-    walkLoop (enc st) D = (enc (walkLoopF st D).1, (walkLoopF st D).2) ∧ (walkLoopF st D).1 ≠ some 0
-  | [], st, h0, _ => by cases st <;> simp_all [walkLoop, walkLoopF]
+theorem walkLoopOld_eq : ∀ (D : List (Nat × Bool)) (st : Option Nat), st ≠ some 0 → Safe st D →
+    walkLoopOld (enc st) D = (enc (walkLoop st D).1, (walkLoop st D).2) ∧ (walkLoop st D).1 ≠ some 0
+  | [], st, h0, _ => by cases st <;> simp_all [walkLoopOld, walkLoop]
   | (t, m) :: R, none, _, hs => by
     cases m with
     | true =>
       simp only [Safe, if_true] at hs
-      have ih := walkLoop_eq_F R (some (pred32 t)) (by simpa using hs.1) hs.2
-      simp only [enc, walkLoop, walkLoopF, if_true] at ih ⊢
+      have ih := walkLoopOld_eq R (some (pred32 t)) (by simpa using hs.1) hs.2
+      simp only [enc, walkLoopOld, walkLoop, if_true] at ih ⊢
       exact ih
     | false =>
       simp only [Safe] at hs
-      have ih := walkLoop_eq_F R none (by simp) (by simpa using hs)
-      simp only [enc, walkLoop, walkLoopF] at ih ⊢
+      have ih := walkLoopOld_eq R none (by simp) (by simpa using hs)
+      simp only [enc, walkLoopOld, walkLoop] at ih ⊢
       simpa using ih
   | (t, m) :: R, some re, h0, hs => by
     have hre : re ≠ 0 := by intro h; apply h0; rw [h]
     cases m with
     | true =>
       simp only [Safe, if_true] at hs
-      have ih := walkLoop_eq_F R (some re) h0 hs
-      simp only [enc, walkLoop, walkLoopF, hre, if_false, if_true] at ih ⊢
+      have ih := walkLoopOld_eq R (some re) h0 hs
+      simp only [enc, walkLoopOld, walkLoop, hre, if_false, if_true] at ih ⊢
       exact ih
     | false =>
       simp only [Safe] at hs
-      have ih := walkLoop_eq_F R none (by simp) (by simpa using hs)
-      simp only [enc, walkLoop, walkLoopF, hre, if_false] at ih ⊢
+      have ih := walkLoopOld_eq R none (by simp) (by simpa using hs)
+      simp only [enc, walkLoopOld, walkLoop, hre, if_false] at ih ⊢
       simp only [Bool.false_eq_true, if_false]
       rw [ih.1]
       exact ⟨rfl, ih.2⟩
 
-theorem walkFinish_eq_F (first : Nat × Bool) : ∀ (st : Option Nat), st ≠ some 0 →
-    walkFinish first (enc st) = walkFinishF first st
-  | none, _ => by simp [walkFinish, walkFinishF, enc]
+theorem walkFinishOld_eq (first : Nat × Bool) : ∀ (st : Option Nat), st ≠ some 0 →
+    walkFinishOld first (enc st) = walkFinish first st
+  | none, _ => by simp [walkFinishOld, walkFinish, enc]
   | some re, h => by
     have hre : re ≠ 0 := by intro h'; apply h; rw [h']
-    simp [walkFinish, walkFinishF, enc, hre]
+    simp [walkFinishOld, walkFinish, enc, hre]
 
 end PfC14
